@@ -236,10 +236,47 @@ class LogicalType(type):  # noqa
                     force_clear=force_clear
                 ):
                     registered = True
+            elif isinstance(arg, LogicalType):
+                # a Rule made of a generic argument (NegativeInt | List['B']): its own args may hold references
+                if cls._register_rule_refs(
+                    arg,
+                    global_vars=global_vars,
+                    forward_refs=forward_refs,
+                    forward_key=key,
+                    force_clear=force_clear
+                ):
+                    registered = True
             args.append(arg)
         if registered:
             # only adjust args if registered
             setattr(cls, "__args__", tuple(args))
+        return registered
+
+    @classmethod
+    def _register_rule_refs(mcs, rule, global_vars, forward_refs, forward_key, force_clear):
+        registered = False
+        for i, arg in enumerate(getattr(rule, "__args__", None) or ()):
+            key = f"{forward_key}.{i}"
+            if isinstance(arg, ForwardRef):
+                register_forward_ref(
+                    annotation=arg,
+                    global_vars=global_vars,
+                    forward_refs=forward_refs,
+                    forward_key=key,
+                    force_clear=force_clear,
+                )
+                registered = True
+            elif isinstance(arg, LogicalType):
+                if arg.combinator:
+                    if arg.register_forward_refs(
+                        global_vars=global_vars,
+                        forward_refs=forward_refs,
+                        forward_key=key,
+                        force_clear=force_clear
+                    ):
+                        registered = True
+                elif mcs._register_rule_refs(arg, global_vars, forward_refs, key, force_clear):
+                    registered = True
         return registered
 
     @classmethod
